@@ -1,106 +1,500 @@
-"""Hunt for C05 violations on the unmodified tree.
+"""Third hunt round for property C05 (canonical results: ==, is_empty(), is_any() exact).
 
-Run: cd /tmp/wt/C05g && PYTHONPATH=/tmp/wt/C05g/src /venv/bin/python hunt_C05.py
+Run:  cd /tmp/wt/C05i && PYTHONPATH=/tmp/wt/C05i/src /venv/bin/python hunt_C05.py [cases] [seed]
 
-One candidate family was found (mirror image of the known "pre-releases below an
-exclusive upper bound" family): PEP 440 says an exclusive LOWER bound `>V` (V not a
-post-release) does not admit the post-releases of V.  The library models `>V` as the open
-ray (V, +inf) in plain Version order, so results that consist only of post-releases of V
-are reported non-empty, and `<=V | >V` is reported universal.
+Prints every violation found (input, what the library returned, what the oracle says) and a
+summary line per part.  Oracle: pointwise evaluation of the expression in the interval model with
+packaging's Version order, on a probe set holding every bound that occurs plus one version strictly
+between each two neighbouring bounds, one below and one above all of them (so a canonical result
+that agrees with the oracle on the probes is exactly right, and two results are the same set iff
+they agree on the probes).  Known families (density gaps / least element of the order, ===,
++local, PEP 440 exclusion rules) are kept out of the generators.
 
-Oracles: packaging's SpecifierSet.contains / SpecifierSet.is_unsatisfiable /
-packaging.ranges.VersionRange (packaging 26.3), and the library's own contains().
-None of the inputs below uses pre-releases, dev releases, local versions, `===`,
-or an exclusive upper bound that is a post-release.
+Parts
+  1. random expression trees over &, |, ~ (leaves: comma sets and || alternatives of <,<=,>,>=,==,!=,
+     ==V.*, !=V.*, ~=V with epochs, pre/post/dev bounds, trailing zeros, <empty>):
+     canonical shape, membership, is_empty/is_any exactness, equality with ~~r, r&r, r|r,
+     the De Morgan twin and the operand-swapped twin (and their hashes).
+  2. closed grid: ~80 leaf specifiers (incl. "", <empty>, ~<empty>) -> every a&b, a|b, ~a, then a
+     second layer on a sample of the results; all results are grouped by their probe vector:
+     equal vector <=> ==  (both directions, all pairs against the group representative), hash.
+  3. unusual spellings / entry points: from_specifierset on SpecifierSet built from Specifier
+     objects, prereleases=True, spellings (v prefix, upper case, -1, _post1, alpha, leading zeros,
+     explicit epoch 0), copy / deepcopy / pickle round trips, AnySpecifier on either side.
+  4. mutation fuzz of specifier text: only InvalidSpecifier may escape parse_version_specifier.
 """
-from packaging.specifiers import SpecifierSet
+import bisect
+import itertools
+import random
+import sys
+import time
+
 from packaging.version import Version
 
-from dep_logic.specifiers import parse_version_specifier as P
+from dep_logic.specifiers import (
+    AnySpecifier,
+    EmptySpecifier,
+    RangeSpecifier,
+    UnionSpecifier,
+    parse_version_specifier,
+)
 
-found = 0
-
-# a dense probe universe of final and post releases around the interesting points
-PROBE = []
-for base in ("0.9", "1", "1.0", "1.0.0", "1.0.1", "1.1", "2", "2.0", "2.0.1", "3"):
-    PROBE.append(base)
-    for n in range(0, 7):
-        PROBE.append(f"{base}.post{n}")
-
-
-def pk(spec: str, v: str) -> bool:
-    return SpecifierSet(spec, prereleases=True).contains(v)
+RELS = ["0", "0.1", "1", "1.0", "1.0.0", "1.0.1", "1.1", "1.2", "1.2.0", "1.2.3", "1.2.3.4",
+        "2", "2.0", "2.0.0", "2.1", "3", "3.7.0", "10", "2.20"]
+SUF = ["", "", "", "", "a1", "rc2", ".post1", ".dev3", ".post1.dev2", "b2.post3"]
+EPO = ["", "", "", "", "1!", "2!"]
 
 
-print("== (a & b).is_empty() is False although no version satisfies both ==")
-for a, b in [
-    (">1.0", "==1.0.post1"),
-    (">1.0", "<=1.0.post5"),
-    (">2", "<=2.0.post3"),
-    (">1.0.0", "==1.post2"),
-    (">1!1.0", "<=1!1.0.post2"),
-]:
-    r = P(a) & P(b)
-    both = [v for v in PROBE + ["1!1.0.post1", "1!1.0.post2", "1!1.0"] if pk(a, v) and pk(b, v)]
-    unsat = SpecifierSet(f"{a},{b}", prereleases=True).is_unsatisfiable()
-    rng = (SpecifierSet(a, prereleases=True).to_range() & SpecifierSet(b, prereleases=True).to_range())
-    lib_members = [v for v in PROBE + ["1!1.0.post1", "1!1.0.post2"] if r.contains(v, prereleases=True)]
-    if not r.is_empty() and unsat and rng.is_empty and not both:
-        found += 1
-        print(
-            f"  VIOLATION  ({a}) & ({b}) -> {r!r}; is_empty()={r.is_empty()}  |  packaging: "
-            f"is_unsatisfiable()={unsat}, VersionRange={rng}, probe versions satisfying both={both}; "
-            f"the library's own result.contains() admits {lib_members}"
-        )
+def rel_of(s):
+    return tuple(int(x) for x in s.split("."))
 
-print("== (a | b).is_any() is True although some version satisfies neither ==")
-for a, b in [
-    ("<=1.0", ">1.0"),
-    ("<=2", ">2.0"),
-    ("<1.0", ">=1.0,<=1.0||>1.0"),
-]:
-    r = P(a) | P(b)
-    parts = [a] + b.split("||")
-    neither = [v for v in PROBE if not any(pk(p, v) for p in parts)]
-    if r.is_any() and neither:
-        found += 1
-        print(
-            f"  VIOLATION  ({a}) | ({b}) -> {r!r}; is_any()={r.is_any()}  |  packaging: "
-            f"versions satisfying neither operand: {neither[:4]}"
-        )
 
-print("== two results compare unequal although they admit the same versions / equal although not ==")
-# `>1.0,<=1.0.post5` admits nothing, `<empty>` admits nothing, yet they differ;
-x = P(">1.0") & P("<=1.0.post5")
-y = P(">=2") & P("<1")
-same = all(pk(">1.0,<=1.0.post5", v) == False for v in PROBE)  # noqa: E712
-if x != y and same and y.is_empty():
-    found += 1
-    print(f"  VIOLATION  {x!r} != {y!r}, but neither admits any version (packaging: {SpecifierSet('>1.0,<=1.0.post5').is_unsatisfiable()=})")
-# ~(>1.0) is `<=1.0`, which misses 1.0.post1 although `>1.0` does not admit it either
-c = ~P(">1.0")
-v = "1.0.post1"
-if not pk(">1.0", v) and not c.contains(v):
-    found += 1
-    print(f"  VIOLATION  ~(>1.0) -> {c!r}; {v} is in neither `>1.0` (packaging {pk('>1.0', v)}) nor its complement ({c.contains(v)})")
+def V(epoch, rel, suf=""):
+    return Version(f"{epoch}{'.'.join(map(str, rel))}{suf}")
 
-print(f"{found} violation(s) shown")
 
-# ----------------------------------------------------------------------------------------
-# Areas that held (no violation), with the number of cases run in the scratch fuzzers:
-#  * random trees (depth <= 3) of &, |, ~ over comma-joined atoms (<,<=,>,>=,==,!=,==X.*,
-#    !=X.*,~=) on final releases with trailing-zero spellings, 1-5 segments, 1.10 vs 1.2:
-#    28,000 trees; the same with epochs (1!x, 2!x, mixed epochs): 28,000 trees.  Oracle:
-#    packaging VersionRange algebra + membership on a 100+ version universe.  Checked:
-#    canonical shape, is_empty, is_any, == between random result pairs, hash agreement,
-#    parse(str(x)) == x.  Only pre-release/0.dev0-floor differences (known) showed up.
-#  * structural laws (commutativity, associativity, distributivity, De Morgan, double
-#    negation, absorption, idempotence, a&~a empty, a|~a universal, hash agreement,
-#    canonical shape) over ALL version kinds (epochs, post, dev, pre, post+dev, 5 segments):
-#    21,000 random triples, 0 failures (only the known `<X.postN` rendering family in
-#    the re-parse check).
-#  * exception types from 60 hand-written odd texts (spaces, v-prefix, upper case, implicit
-#    post `1.0-1`, `,`-only, `||`-only, `<empty>||>=1`, full-width digits, epochs with
-#    wildcards) plus 30,000 random token soups: 2,157 parsed, all others raised
-#    InvalidSpecifier; the only other exception was the known `===` family
-#    (`===01||==2!0` -> bare ValueError "Unsupported union").
+class Atom:
+    def __init__(self, text, pred, bounds):
+        self.text, self.pred, self.bounds = text, pred, bounds
+
+
+def gen_atom(rnd):
+    k = rnd.random()
+    e = rnd.choice(EPO)
+    r = rnd.choice(RELS)
+    if k < 0.6:
+        op = rnd.choice(["<", "<=", ">", ">=", "==", "!="])
+        s = rnd.choice(SUF)
+        v = Version(e + r + s)
+        pred = {
+            "<": lambda x: x < v, "<=": lambda x: x <= v, ">": lambda x: x > v,
+            ">=": lambda x: x >= v, "==": lambda x: x == v, "!=": lambda x: x != v,
+        }[op]
+        return Atom(f"{op}{e}{r}{s}", pred, [v])
+    if k < 0.8:
+        op = rnd.choice(["==", "!="])
+        rel = rel_of(r)
+        lo = V(e, rel + (0,))
+        hi = V(e, rel[:-1] + (rel[-1] + 1,))
+        if op == "==":
+            return Atom(f"=={e}{r}.*", lambda x: lo <= x < hi, [lo, hi])
+        return Atom(f"!={e}{r}.*", lambda x: not (lo <= x < hi), [lo, hi])
+    rel = rel_of(r)
+    if len(rel) < 2:
+        rel = rel + (rnd.choice([0, 1, 5]),)
+    s = rnd.choice(SUF)
+    lo = V(e, rel, s)
+    hi = V(e, rel[:-2] + (rel[-2] + 1,))
+    return Atom(f"~={e}{'.'.join(map(str, rel))}{s}", lambda x: lo <= x < hi, [lo, hi])
+
+
+class Leaf:
+    def __init__(self, rnd):
+        self.alts = []
+        for _ in range(rnd.choice([1, 1, 1, 2, 2, 3, 4])):
+            self.alts.append([gen_atom(rnd) for _ in range(rnd.choice([1, 1, 2, 2, 3]))])
+        self.text = "||".join(",".join(a.text for a in alt) for alt in self.alts)
+        if rnd.random() < 0.03:
+            self.alts, self.text = [], "<empty>"
+
+    def build(self):
+        return parse_version_specifier(self.text)
+
+    def ev(self, x):
+        return any(all(a.pred(x) for a in alt) for alt in self.alts)
+
+    def bounds(self):
+        return [b for alt in self.alts for a in alt for b in a.bounds]
+
+
+class Node:
+    def __init__(self, op, *kids):
+        self.op, self.kids = op, kids
+        if op == "~":
+            self.text = f"~({kids[0].text})"
+        else:
+            self.text = f"({kids[0].text}) {op} ({kids[1].text})"
+
+    def build(self):
+        if self.op == "~":
+            return ~self.kids[0].build()
+        a, b = self.kids[0].build(), self.kids[1].build()
+        return a & b if self.op == "&" else a | b
+
+    def ev(self, x):
+        if self.op == "~":
+            return not self.kids[0].ev(x)
+        a, b = self.kids[0].ev(x), self.kids[1].ev(x)
+        return (a and b) if self.op == "&" else (a or b)
+
+    def bounds(self):
+        return [b for k in self.kids for b in k.bounds()]
+
+
+def gen_tree(rnd, depth):
+    if depth == 0 or rnd.random() < 0.25:
+        return Leaf(rnd)
+    op = rnd.choice(["&", "|", "&", "|", "~"])
+    if op == "~":
+        return Node("~", gen_tree(rnd, depth - 1))
+    return Node(op, gen_tree(rnd, depth - 1), gen_tree(rnd, depth - 1))
+
+
+# universe of candidate in-between points
+def universe(base_rels=None):
+    out = set()
+    rels = set()
+    for r in (RELS if base_rels is None else base_rels):
+        rel = rel_of(r) if isinstance(r, str) else tuple(r)
+        for t in (rel, rel + (0, 1), rel + (1,), rel[:-1] + (rel[-1] + 1,), rel + (0,),
+                  rel[:-1] + (rel[-1] + 1, 0, 1)):
+            rels.add(t)
+            if len(t) >= 2:
+                rels.add(t[:-2] + (t[-2] + 1,))
+    sufs = ["", "a0", "a1", "a2", "rc1", "rc2", "rc3", "b2.post3", "b2.post4", "b2.post2", ".post0", ".post1",
+            ".post2", ".dev0", ".dev1", ".dev3", ".dev4", ".post1.dev1", ".post1.dev2",
+            ".post1.dev3", ".post0.dev1", "a1.dev1", "rc2.dev1", "a1.post1", "rc2.post1"]
+    for e in ("", "1!", "2!", "3!"):
+        for t in rels:
+            for s in sufs:
+                out.add(Version(f"{e}{'.'.join(map(str, t))}{s}"))
+    return sorted(out)
+
+
+UNI = universe()
+
+
+def probes_for(bounds, UNI=None):
+    UNI = UNI or globals()["UNI"]
+    bs = sorted(set(bounds))
+    pts = list(bs)
+    gaps = []
+    for u, v in zip(bs, bs[1:]):
+        i = bisect.bisect_right(UNI, u)
+        if i < len(UNI) and UNI[i] < v:
+            pts.append(UNI[i])
+        else:
+            gaps.append((u, v))
+    if bs:
+        i = bisect.bisect_left(UNI, bs[0])
+        if i > 0:
+            pts.append(UNI[i - 1])
+        pts.append(Version("9!0"))
+    else:
+        pts.append(Version("1"))
+    return pts, gaps
+
+
+def member(spec, x):
+    if isinstance(spec, EmptySpecifier):
+        return False
+    if isinstance(spec, AnySpecifier):
+        return True
+    if isinstance(spec, RangeSpecifier):
+        if spec.min is not None and (x < spec.min or (x == spec.min and not spec.include_min)):
+            return False
+        if spec.max is not None and (x > spec.max or (x == spec.max and not spec.include_max)):
+            return False
+        return True
+    if isinstance(spec, UnionSpecifier):
+        return any(member(r, x) for r in spec.ranges)
+    raise TypeError(type(spec))
+
+
+def canonical(spec):
+    if isinstance(spec, (EmptySpecifier, AnySpecifier)):
+        return None
+    if isinstance(spec, RangeSpecifier):
+        if spec.min is not None and spec.max is not None:
+            if spec.min > spec.max or (spec.min == spec.max and not (spec.include_min and spec.include_max)):
+                return "degenerate range"
+        return None
+    if isinstance(spec, UnionSpecifier):
+        if len(spec.ranges) < 2:
+            return "union of <2"
+        for r in spec.ranges:
+            if not isinstance(r, RangeSpecifier):
+                return "non-range member"
+            if r.is_any():
+                return "universal member"
+            if (m := canonical(r)):
+                return m
+        for a, b in zip(spec.ranges, spec.ranges[1:]):
+            if a.max is None or b.min is None:
+                return "unbounded inside"
+            if a.max > b.min or (a.max == b.min and (a.include_max or b.include_min)):
+                return "not separated"
+        return None
+    return f"unexpected type {type(spec).__name__}"
+
+
+def same(a, b):
+    return a == b and b == a and not (a != b) and hash(a) == hash(b)
+
+
+def part1(n, seed, depth=3):
+    rnd = random.Random(seed)
+    bad = 0
+    ngaps = 0
+    t0 = time.time()
+    first = None
+    universal = [parse_version_specifier(""), ~parse_version_specifier("<empty>"),
+                 parse_version_specifier("<1") | parse_version_specifier(">=1")]
+    empty = [parse_version_specifier("<empty>"), parse_version_specifier(">=2,<1")]
+    for i in range(n):
+        t = gen_tree(rnd, rnd.choice([1, 2, 2, depth]))
+        try:
+            r = t.build()
+        except Exception as e:  # noqa
+            print("  EXCEPTION", type(e).__name__, e, "on", t.text)
+            bad += 1
+            first = first if first is not None else i
+            continue
+        msgs = []
+        if (m := canonical(r)):
+            msgs.append(f"not canonical: {m}")
+        pts, gaps = probes_for(t.bounds())
+        want = [t.ev(x) for x in pts]
+        got = [member(r, x) for x in pts]
+        if want != got:
+            x = pts[[a != b for a, b in zip(want, got)].index(True)]
+            msgs.append(f"oracle says {x} {'is' if t.ev(x) else 'is not'} admitted, result disagrees")
+        if gaps:
+            ngaps += 1
+        else:
+            if r.is_empty() != (not any(want)):
+                msgs.append(f"is_empty()={r.is_empty()} but oracle: some probe admitted={any(want)}")
+            if r.is_any() != all(want):
+                msgs.append(f"is_any()={r.is_any()} but oracle: all probes admitted={all(want)}")
+            if all(want) and not all(same(r, u) for u in universal):
+                msgs.append("universal result does not equal every universal spelling")
+            if not any(want) and not all(same(r, u) for u in empty):
+                msgs.append("empty result does not equal <empty>")
+        for name, twin in (("~~r", lambda: ~~r), ("r&r", lambda: r & r), ("r|r", lambda: r | r)):
+            tw = twin()
+            if not same(tw, r):
+                msgs.append(f"{name} = {tw!r} != {r!r}")
+        if isinstance(t, Node) and t.op != "~":
+            A, B = t.kids[0].build(), t.kids[1].build()
+            dm = ~(~A | ~B) if t.op == "&" else ~(~A & ~B)
+            if not same(dm, r):
+                msgs.append(f"De Morgan twin {dm!r} != {r!r}")
+            sw = (B & A) if t.op == "&" else (B | A)
+            if not same(sw, r):
+                msgs.append(f"swapped twin {sw!r} != {r!r}")
+        if msgs:
+            bad += 1
+            first = first if first is not None else i
+            if bad <= 5:
+                print("  VIOLATION input:", t.text, "\n    library:", repr(r), "\n    ", "; ".join(msgs))
+    print(f"part 1: random trees seed={seed} cases={n} (skipped exactness on {ngaps} with a density gap) "
+          f"violations={bad} first_at={first} {time.time()-t0:.1f}s")
+    return bad
+
+
+GRID = ["", "<empty>", "~<empty>", "<1", "<=1", ">1", ">=1", "==1", "!=1", "<1.0.0", ">=1.0", "==1.0.0",
+        "<2", "<=2", ">2", ">=2", "==2", "!=2", "==1.*", "!=1.*", "~=1.0", "~=1.5", "==1.5.*", "!=1.5.*",
+        ">=1,<2", ">1,<2", ">=1,<=2", ">1,<=2", "<1||>2", "<=1||>=2", "<1||>=2", "<=1||>2", "<1||==2",
+        "==1||==2", "==1||>2", "<1||>1,<2||>2", "<=1||==1.5||>=2", "!=1,!=2", "!=1,!=1.5,!=2",
+        ">=1.5", "<1.5", "==1.5", ">1.5,<2", ">=1,<1.5", "<1||>=1.5,<2", "==1||==1.5||==2",
+        ">=1!0", "<1!0", "==1!1.*", "!=1!1.*", "~=1!1.0", "<1||>=1!0", ">=2,<1!1", "==1!1", "<=1!1||>1!2",
+        ">=1.0a1", "<1.0a1", ">1.0.post1", "<=1.0.post1", "==1.0.post1", "!=1.0.post1", ">=2.dev3", "<2.dev3",
+        ">=1.0a1,<1.0.post1", "<1.0a1||>1.0.post1", "~=1.0.post1", "~=1.0a1", "~=1.5.0", "~=1.5.0.0",
+        "==1.5.0.*", ">=1.5.0.0,<1.5.1", "<1.5.0||>=1.5.1.0", "<1||==1.0.post1||>=2.dev3,<2||>2",
+        ">=3", "<3", "==3.*", "<1||>=3", ">=1,<3", "!=2.*"]
+
+
+def build_leaf(text):
+    if text == "~<empty>":
+        return ~parse_version_specifier("<empty>")
+    return parse_version_specifier(text)
+
+
+def spec_bounds(s, acc):
+    if isinstance(s, RangeSpecifier):
+        acc.update(v for v in (s.min, s.max) if v is not None)
+    elif isinstance(s, UnionSpecifier):
+        for r in s.ranges:
+            spec_bounds(r, acc)
+
+
+def part2(seed):
+    t0 = time.time()
+    rnd = random.Random(seed)
+    leaves = [(t, build_leaf(t)) for t in GRID]
+    acc = set()
+    for _, s in leaves:
+        spec_bounds(s, acc)
+    pts, gaps = probes_for(sorted(acc), universe({b.release for b in acc}))
+    assert not gaps, gaps
+    pts = sorted(set(pts))
+
+    def vec(s):
+        return tuple(member(s, x) for x in pts)
+
+    items = []  # (description, spec, expected vector)
+    for t, s in leaves:
+        items.append((t, s, vec(s)))   # the leaf's own vector is checked by part 1's oracle
+    bad = 0
+
+    def layer(src, pairs):
+        nonlocal bad
+        out = []
+        for (ta, a, va), (tb, b, vb) in pairs:
+            for op, f, g in (("&", lambda x, y: x & y, lambda p, q: p and q),
+                             ("|", lambda x, y: x | y, lambda p, q: p or q)):
+                try:
+                    r = f(a, b)
+                except Exception as e:  # noqa
+                    print("  EXCEPTION", type(e).__name__, e, f"({ta}) {op} ({tb})")
+                    bad += 1
+                    continue
+                out.append((f"({ta}) {op} ({tb})", r, tuple(g(p, q) for p, q in zip(va, vb))))
+        for ta, a, va in src:
+            out.append((f"~({ta})", ~a, tuple(not p for p in va)))
+        return out
+
+    l1 = layer(items, itertools.product(items, items))
+    sample = rnd.sample(l1, 400)
+    l2 = layer(sample, itertools.product(sample, sample))
+    everything = items + l1 + l2
+    groups = {}
+    for desc, r, want in everything:
+        msgs = []
+        if (m := canonical(r)):
+            msgs.append(f"not canonical: {m}")
+        if vec(r) != want:
+            msgs.append("membership differs from pointwise evaluation of the operands")
+        if r.is_empty() != (not any(want)):
+            msgs.append(f"is_empty()={r.is_empty()}, oracle nonempty={any(want)}")
+        if r.is_any() != all(want):
+            msgs.append(f"is_any()={r.is_any()}, oracle universal={all(want)}")
+        rep = groups.setdefault(want, (desc, r))
+        if not same(rep[1], r):
+            msgs.append(f"same versions as {rep[0]} = {rep[1]!r} but == / hash disagree")
+        if msgs:
+            bad += 1
+            if bad <= 5:
+                print("  VIOLATION input:", desc, "\n    library:", repr(r), "\n    ", "; ".join(msgs))
+    reps = list(groups.values())
+    for (d1, r1), (d2, r2) in itertools.combinations(reps, 2):
+        if r1 == r2 or r2 == r1:
+            bad += 1
+            print("  VIOLATION: different version sets compare equal:", d1, repr(r1), "|", d2, repr(r2))
+    print(f"part 2: grid {len(GRID)} leaves, {len(everything)} results, {len(groups)} distinct sets, "
+          f"{len(pts)} probes: violations={bad} {time.time()-t0:.1f}s")
+    return bad
+
+
+def part3():
+    import copy
+    import pickle
+
+    from packaging.specifiers import Specifier, SpecifierSet
+
+    from dep_logic.specifiers import from_specifierset
+
+    bad = 0
+    n = 0
+    P = parse_version_specifier
+    eqs = [("== V1.0.*", ">=1.0.0,<1.1"), ("!=v1.*", "<1.0||>=2"), ("~=1.0-1", ">=1.0.post1,<2"),
+           ("~= 1.0alpha1", ">=1.0a1,<2.0"), ("==1.0_post1", "==1.0.post1"), (">=1.0.pre", ">=1.0rc0"),
+           ("<1.0-r3", "<1.0.post3"), ("~=01.002", ">=1.2,<2"), ("==001.*", ">=1,<2"), (">=0!1.0", ">=1"),
+           ("==0!1.*", "==1.*"), ("~=0!1.5", "~=1.5"), (" >=1 , <2 ", ">=1,<2"), (">=1,", ">=1"), (",", ""),
+           ("==1.0.0.0.*", ">=1.0.0.0.0,<1.0.0.1"), ("~=1.0.0.0.0", "==1.0.0.0.*"), ("||", ""),
+           (">=1||", ""), ("<empty>||>=1", ">=1"), ("<empty>||<empty>", "<empty>"),
+           ("!=1.0,!=1.0.0", "!=1"), ("==1.0||==1.0.0", "==1"), (">=1 || <2", "")]
+    for a, b in eqs:
+        n += 1
+        try:
+            if not same(P(a), P(b)):
+                bad += 1
+                print("  VIOLATION:", repr(a), "->", repr(P(a)), "should equal", repr(b), "->", repr(P(b)))
+        except Exception as e:  # noqa
+            bad += 1
+            print("  EXCEPTION", type(e).__name__, e, a, b)
+    sets = [(SpecifierSet([Specifier(">= 1"), Specifier("< 2")]), ">=1,<2"),
+            (SpecifierSet(">=1", prereleases=True), ">=1"), (SpecifierSet(">=1", prereleases=False), ">=1"),
+            (SpecifierSet([Specifier("!=1.*"), Specifier("!=2.*")]), "<1||>=3"),
+            (SpecifierSet(">=1") & SpecifierSet("<2"), ">=1,<2"), (SpecifierSet(), "")]
+    for ss, b in sets:
+        n += 1
+        if not same(from_specifierset(ss), P(b)):
+            bad += 1
+            print("  VIOLATION from_specifierset", ss, "->", repr(from_specifierset(ss)), "!=", repr(P(b)))
+    anyspec = ~P("<empty>")
+    for t in GRID:
+        r = build_leaf(t)
+        str(r)  # fill the cached_property before copying
+        n += 1
+        for name, f in (("copy", copy.copy), ("deepcopy", copy.deepcopy),
+                        ("pickle", lambda x: pickle.loads(pickle.dumps(x)))):
+            if not same(f(r), r):
+                bad += 1
+                print("  VIOLATION", name, "of", repr(r), "is not equal to it")
+        checks = [(anyspec & r, r), (r & anyspec, r), (P("") & r, r), (r & P(""), r),
+                  (P("<empty>") | r, r), (r | P("<empty>"), r)]
+        for got, want in checks:
+            if not same(got, want):
+                bad += 1
+                print("  VIOLATION identity element:", repr(got), "!=", repr(want))
+        for got in (anyspec | r, r | anyspec, P("") | r, r | P("")):
+            if not (got.is_any() and same(got, P("")) and same(got, anyspec)):
+                bad += 1
+                print("  VIOLATION absorbing element:", repr(got), "from", t)
+        for got in (P("<empty>") & r, r & P("<empty>")):
+            if not (got.is_empty() and same(got, P("<empty>"))):
+                bad += 1
+                print("  VIOLATION empty absorbing:", repr(got), "from", t)
+        c = ~r
+        if not ((r & c).is_empty() and (r | c).is_any() and same(~c, r)):
+            bad += 1
+            print("  VIOLATION complement laws for", t, repr(r), repr(c))
+    print(f"part 3: spellings / entry points / copies / identity elements: {n} inputs, violations={bad}")
+    return bad
+
+
+def part4(n, seed):
+    from dep_logic.specifiers import InvalidSpecifier
+
+    rnd = random.Random(seed)
+    base = ["~=1.0.post1", ">=1.0a1", "==1.0.*", "!=2!1.*", "<1.0.dev1", "~=1.2.3rc1", ">1.0-1",
+            "<=v1.0_beta.2", "~=1.0.0", ">=1,<2||==3.*"]
+    chars = list("0123456789.*!-_vVabcrpostdev ,<>=~|") + ["ſ", "İ", "ı", "K", " ",
+             " ", "٠", "１", "²", "\t", "\n", "\x1c", "\x1f", "\x85", " ", "\x0b", "\x0c"]
+    ok = inv = bad = 0
+    for _ in range(n):
+        s = list(rnd.choice(base))
+        for _ in range(rnd.choice([1, 1, 2, 3])):
+            k, pos = rnd.random(), rnd.randrange(len(s) + 1)
+            if k < 0.5:
+                s.insert(pos, rnd.choice(chars))
+            elif k < 0.8 and s:
+                s[min(pos, len(s) - 1)] = rnd.choice(chars)
+            elif s:
+                del s[min(pos, len(s) - 1)]
+        s = "".join(s)
+        if "===" in s:
+            continue
+        try:
+            r = parse_version_specifier(s)
+            ok += 1
+            if (m := canonical(r)):
+                bad += 1
+                print("  VIOLATION", repr(s), "->", repr(r), m)
+        except InvalidSpecifier:
+            inv += 1
+        except Exception as e:  # noqa
+            bad += 1
+            if bad <= 5:
+                print("  EXCEPTION of the wrong type", type(e).__name__, e, "on", repr(s))
+    print(f"part 4: mutated specifier text: {ok} parsed (all canonical), {inv} InvalidSpecifier, violations={bad}")
+    return bad
+
+
+if __name__ == "__main__":
+    n = int(sys.argv[1]) if len(sys.argv) > 1 else 20000
+    seed = int(sys.argv[2]) if len(sys.argv) > 2 else 0
+    total = part1(n, seed) + part2(seed) + part3() + part4(max(n, 1000) * 2, seed)
+    print("NEW VIOLATIONS FOUND:" if total else "no new violation of C05 found;", total if total else "")
+    sys.exit(1 if total else 0)
